@@ -290,6 +290,17 @@ def check_c10(tier, seed):
                 fails.append({"clause": "no-sticky-state", "detail": f"parsing `{bad}` twice on one parser: {first} then {again}"})
             if after != fresh:
                 fails.append({"clause": "no-sticky-state", "detail": f"after failing on `{bad}`, `{good}` gives {after}; a fresh parser gives {fresh}"})
+    # a failed (or successful) parse followed by a string that differs only in white space: same as a fresh parser
+    spaced = [s for s in failing + ok if " " in s.strip()][:400]
+    for s in spaced + ["1 2", "2 .5x", "s gn(3)", "4 x", "x = 1 2"]:
+        variants = {s.replace(" ", ""), " ".join(s.split()), s.replace(" ", "  ")} - {s}
+        for other in variants:
+            for first, second in ((s, other), (other, s)):
+                cases += 1
+                p = ExpressionParser()
+                outcome(p, first)
+                if outcome(p, second) != outcome(ExpressionParser(), second):
+                    fails.append({"clause": "no-sticky-state", "detail": f"after parsing `{first}`, `{second}` gives {outcome(p, second)}; a fresh parser gives {outcome(ExpressionParser(), second)}"})
     # many failing parses on one parser (unclosed groups, dangling operators), then valid inputs not seen before
     p = ExpressionParser()
     for k in range(12):
